@@ -44,6 +44,16 @@ func init() {
 		// the allocation tracker: Allocator.ReleaseInstanceType delegates to the tracker
 		g.callSeq(grp, "pkg/scheduling/dynamicresources", "Allocator.ReleaseInstanceType", "allocatorReleaseCalls", []string{"ReleaseInstanceTypes"})
 		g.callSeq(grp, "pkg/scheduling/dynamicresources", "allocation.Commit", "allocationCommitCalls", []string{"Commit"})
+		// shared counters: the budgets are initialised at construction from the pools gathered with empty requirements and no
+		// node name; InitRemainingCounters walks these device lists of a pool and skips a device under these guards
+		const drapkg = "pkg/scheduling/dynamicresources"
+		g.callSeq(grp, drapkg, "NewAllocator", "newAllocatorCounterCalls", []string{"GatherPools", "InitRemainingCounters"})
+		c17RangeLoops(g, grp, drapkg, "AllocationTracker.InitRemainingCounters", "deductFromCounters", "initCounters")
+		// the tracker books / gives back counters and capacity on every Commit / ReleaseInstanceTypes
+		g.callSeq(grp, drapkg, "AllocationTracker.Commit", "trackerCommitBudgetCalls", []string{"commitCounters", "commitCapacity"})
+		g.callSeq(grp, drapkg, "AllocationTracker.ReleaseInstanceTypes", "trackerReleaseBudgetCalls", []string{"releaseCounters", "releaseCapacity"})
+		// the search tests the counter budget of a device before it records the device and books it as allocating
+		g.callSeq(grp, drapkg, "allocator.tryDevice", "tryDeviceCounterCalls", []string{"checkCapacity", "IsAllocated", "checkCounters", "deductAllocatingCapacity", "deductAllocatingCounters"})
 	})
 }
 
@@ -114,4 +124,75 @@ func c17IfBlock(g *gen, group, pkgPath, fn, ident, lean string, condsOnly bool) 
 		}
 	}
 	b.WriteString("]\n\n")
+}
+
+// c17RangeLoops finds the `for … range X` statements of fn whose body calls callee and emits, in source order, the ranged
+// expressions (`<lean>Ranges : List String`) and for each loop the condition of its `if … { continue }` guard, with the
+// ranged expression abbreviated to `D` (`<lean>Guards : List String`; "" when the loop has no such guard).
+func c17RangeLoops(g *gen, group, pkgPath, fn, callee, lean string) {
+	_, fd := g.findFunc(pkgPath, fn)
+	if fd == nil {
+		return
+	}
+	render := func(n ast.Node) string {
+		var b bytes.Buffer
+		if err := printer.Fprint(&b, g.fset, n); err != nil {
+			return "?"
+		}
+		return strings.Join(strings.Fields(b.String()), " ")
+	}
+	calls := func(n ast.Node) bool {
+		found := false
+		ast.Inspect(n, func(m ast.Node) bool {
+			if c, ok := m.(*ast.CallExpr); ok {
+				switch f := c.Fun.(type) {
+				case *ast.Ident:
+					found = found || f.Name == callee
+				case *ast.SelectorExpr:
+					found = found || f.Sel.Name == callee
+				}
+			}
+			return !found
+		})
+		return found
+	}
+	var ranges, guards []string
+	ast.Inspect(fd.Body, func(n ast.Node) bool {
+		rs, ok := n.(*ast.RangeStmt)
+		if !ok || !calls(rs.Body) {
+			return true
+		}
+		x := render(rs.X)
+		ranges = append(ranges, x)
+		guard := ""
+		for _, st := range rs.Body.List {
+			is, ok := st.(*ast.IfStmt)
+			if !ok || len(is.Body.List) != 1 {
+				continue
+			}
+			if br, ok := is.Body.List[0].(*ast.BranchStmt); ok && br.Tok.String() == "continue" {
+				guard = strings.ReplaceAll(render(is.Cond), x, "D")
+				break
+			}
+		}
+		guards = append(guards, guard)
+		return false
+	})
+	if len(ranges) == 0 {
+		g.errf("%s.%s: no range loop calling %s", pkgPath, fn, callee)
+		return
+	}
+	b := g.out(group)
+	emit := func(name, doc string, xs []string) {
+		fmt.Fprintf(b, "/-- %s -/\ndef %s : List String := [", doc, name)
+		for i, x := range xs {
+			if i > 0 {
+				b.WriteString(", ")
+			}
+			b.WriteString(leanStr(x))
+		}
+		b.WriteString("]\n\n")
+	}
+	emit(lean+"Ranges", fmt.Sprintf("the expressions ranged over by the loops of `%s.%s` (%s) that call `%s`, in source order", pkgPath, fn, g.pos(fd.Pos()), callee), ranges)
+	emit(lean+"Guards", "… and the condition under which each of them skips a device (`D` = the ranged expression)", guards)
 }
